@@ -135,7 +135,7 @@ def run_case(case, res):
         t = (TypedTree if typed else Tree)("TITLE")
     if case.get("lab") == "clones":
         # the same data below different parents, also below one of its own occurrences (a clone inside its clone's branch)
-        labs = gen.clone_labeling(rng_for(case.get("pseed", 0), "c16-clones", case["f"]), f, ["a", "b", "c"]) or [f"n{i}" for i in range(gen.size(f))]
+        labs = gen.clone_labeling(rng_for(case.get("pseed", 0), "c16-clones", case["f"]), f, ["a", "e\u0301", "\u212b"]) or [f"n{i}" for i in range(gen.size(f))]  # (text that is not in NFC form: lines carry it unchanged)
         nodes = gen.build(t, f, lambda i: labs[i], kind=(lambda i: "kab"[(i * 7 + i // 3) % 3]) if typed else None)
     elif case.get("lab") == "eqsib":
         # siblings holding equal data under distinct ids; renderings stay unique through the id
@@ -151,6 +151,29 @@ def run_case(case, res):
             ks = {}
             try:
                 t.sort(key=lambda x: ks.setdefault(id(x), prng.random()))
+            except Exception:
+                pass
+        # structural history: a temporary wrapper is put over a child branch and dissolved again (remove(keep_children=True)
+        # lifts the branch back), a branch is moved to another parent and back - afterwards the same nodes hang below the
+        # same parents (sibling order may differ), whatever depth / position bookkeeping the library keeps has been exercised
+        for nd in list(nodes):
+            try:
+                kids = list(nd.children)
+                if kids and prng.random() < 0.4:
+                    c = prng.choice(kids)
+                    if not typed:
+                        w = nd.add("tmp-wrapper")
+                        c.move_to(w)
+                        w.remove(keep_children=True)
+                        if prng.random() < 0.5 and nd.parent is not None:
+                            c.move_to(nd.parent)
+                            c.move_to(nd, before=prng.choice([None, True]))
+                    else:
+                        w = nd.add("tmp-wrapper", kind="kw")
+                        g = w.add("tmp-inner", kind="kx")
+                        g.add("tmp-leaf", kind="kx")
+                        w.remove(keep_children=True)
+                        g.remove()
             except Exception:
                 pass
         for nd in nodes:
@@ -319,6 +342,25 @@ def run_case(case, res):
                             res.count("join_law_checks")
                             if a != b:
                                 bad.append(f"format(join={J!r}{', ' + repr(extra) if extra else ''}) = {a!r} differs from join.join(format_iter()) = {b!r} (style {sname})")
+                # two renderings of the same tree that overlap in time (zip of two iterators, different styles and reprs)
+                # are each what they are alone
+                if start == -1 and sname in ("round43", "ascii32", "lines32c", "list"):
+                    other = "space2" if sname != "list" else "round21"
+                    solo_a = attempt(lambda: list(t.format_iter(repr="<{node.data}>", style=sname)))
+                    solo_b = attempt(lambda: list(t.format_iter(repr="[{node.data_id}]", style=other, title=False)))
+                    if isinstance(solo_a, list) and isinstance(solo_b, list):
+                        ia, ib = t.format_iter(repr="<{node.data}>", style=sname), t.format_iter(repr="[{node.data_id}]", style=other, title=False)
+                        ga, gb = [], []
+                        for _ in range(max(len(solo_a), len(solo_b)) + 1):
+                            for it_, acc in ((ia, ga), (ib, gb)):
+                                try:
+                                    acc.append(next(it_))
+                                except StopIteration:
+                                    pass
+                        res.count("interleaved_renderings")
+                        if ga != solo_a or gb != solo_b:
+                            bad.append(f"two interleaved format_iter() calls (styles {sname} / {other}) differ from the same calls made one after the other: "
+                                       f"{ga!r} / {gb!r} vs {solo_a!r} / {solo_b!r}"[:1500])
                 # format_iter agrees with format
                 if start == -1:
                     a = attempt(lambda: list(t.format_iter(repr="<{node.data}>", style=None if sname in ("default", "list") or sname.startswith("custom") else sname)))
